@@ -491,6 +491,8 @@ def process_tainted(t):
                 return True
         if x[0] == 'set' or (x[0] == 'comp' and x[1] == 'set'):
             return True
+        if x[0] == 'call' and x[1][0] == 'lib' and x[1][1].split('.')[-1] in ('set', 'frozenset'):
+            return True     # iteration order (hence repr / pickle) of a set of strings follows the per-process string hashes
         return False
     return contains_term(t, pred)
 
